@@ -70,6 +70,14 @@ MUTANTS = [
     ('m43', 'C15', 'break', 'skoolkit/graphics.py', "                self.mask = self._rotate_tile(self.mask, rotate & 2)", "                self.mask = self._rotate_tile(self.mask, rotate & 1)", None),
     ('m44', 'C10', 'break', 'skoolkit/snapshot.py', "            if count > 4 or (count > 1 and prev_b == 237):\n                block.extend((237, 237, count, prev_b))\n            elif prev_b == 237:",
      "            if count > 4 or (count > 2 and prev_b == 237):\n                block.extend((237, 237, count, prev_b))\n            elif prev_b == 237:", None),
+    ('m45', 'C11', 'break', 'skoolkit/tape.py', "            timings = TapeBlockTimings((), (zero, zero), (one, one), pause * 3500, used_bits)", "            timings = TapeBlockTimings((), (zero, zero), (one, one), pause * 3500)", None),
+    ('m46', 'C14', 'break', 'skoolkit/snactl.py', "                    if start <= address < end:\n                        addresses.add(address)", "                    if start <= address <= end:\n                        addresses.add(address)", None),
+    ('m47', 'C15', 'break', 'skoolkit/skoolmacro.py', "                mask_step = udg_step", "                mask_step = step", None),
+    ('m48', 'C01', 'break', 'skoolkit/snaskool.py', "                        if sub_block.ctl == 's':\n                            length = sublengths[0][0]", "                        if sub_block.ctl == 'S':\n                            length = sublengths[0][0]", None),
+    ('m49', 'C09', 'break', 'skoolkit/snapshot.py', "        snapshot.banks[page % 8][dest:dest + size] = data[:size]", "        snapshot.banks[page % 8][dest:dest + size] = data", None),
+    ('m50', 'C13', 'break', 'skoolkit/loadtracer.py', "and self.block_data_index <= self.state[1] < self.max_index:", "and self.block_data_index < self.state[1] < self.max_index:", 'opcodes:00'),
+    ('m51', 'C13', 'break', 'skoolkit/loadtracer.py', "            self.state[1] = self.state[3] + 1", "            self.state[1] = self.state[3] + 2", 'opcodes:00'),
+    ('m52', 'C13', 'break', 'skoolkit/loadtracer.py', "        while self.block_index < len(self.blocks) and self.block_data_index <=", "        while self.block_data_index <=", 'opcodes:00'),
     # harmless edits: must not raise an alarm
     ('h01', 'C05', 'harmless', 'skoolkit/simulator.py',
      "            pcn = registers[24] + 1\n            registers[:2] = af[registers[0]][memory[pcn % 65536]]\n            registers[15] = R1[registers[15]] # R\n            registers[25] += 7 # T-states\n            registers[24] = (pcn + 1) % 65536 # PC",
@@ -80,6 +88,9 @@ MUTANTS = [
      "    def contend_48k(self, t, timings):\n        total = 0\n        for addr, length in timings:\n            if 0x4000 <= addr < 0x8000:\n                wait = DELAYS_48K[t]\n                total += wait\n                t += wait\n            t += length\n        return total", 'opcodes:86,opcodes:CD'),
     ('h04', 'C02', 'harmless', 'skoolkit/z80.py', "        offset = self.parse_word(op) - address\n", "        target = self.parse_word(op)\n        offset = target - address\n", None),
     ('h05', 'C12', 'harmless', 'skoolkit/bin2tap.py', "        stack_size = len(stack_contents)\n        index = stack - org - stack_size", "        stack_size = len(stack_contents)\n        index = stack - stack_size - org", None),
+    ('h06', 'C01', 'harmless', 'skoolkit/snaskool.py', "                        length = sub_block.end - sub_block.start", "                        length = sub_block.end - address", None),
+    ('h07', 'C13', 'harmless', 'skoolkit/loadtracer.py', "        while self.block_index < len(self.blocks) and self.block_data_index <= self.state[1] < self.max_index:", "        while self.block_data_index <= self.state[1] < self.max_index and self.block_index < len(self.blocks):", 'opcodes:00'),
+    ('h08', 'C14', 'harmless', 'skoolkit/snactl.py', "                    if start <= address < end:\n                        addresses.add(address)", "                    if address >= start and address < end:\n                        addresses.add(address)", None),
 ]
 
 
